@@ -1,6 +1,7 @@
 import DimodProofs.Store
 import DimodProofs.Heap
 import DimodProofs.HeapCache
+import Generated.CqmFixCopy
 
 /-! # C19 — copies and non-mutating variants are independent of the original
 
@@ -573,5 +574,18 @@ example : obs (pyEdit (copySharingDict (pyOther p0 0).1 0).1 2 .otherDirect (.co
 /-- … and likewise through a stored bound method -/
 example : obs (pyEdit (copySharingDict (pyEdit p0 0 (.fwd "scale") (.coeffs id)) 0).1 1 (.fwd "scale") (.coeffs fun _ => [9])).h 2 = ([9], [7, 8]) := by
   decide +kernel
+
+/-! ## r8f — the receiver of `fix_variables(…, inplace=False)`: what the source does with `self`
+
+`heap_cqm_copies_fresh` / `heap_cqm_calls_separate` model the non-mutating branch as `cqmRebuild` (allocate, write nothing that exists).
+That is justified by the branch making exactly two calls through `self` — `self.variables.index(v)` (a read) and the `const` C++
+`self.cppcqm.fix_variables(…)` — and no store; the lists are regenerated from `cyconstrained.pyx` / the header on every run
+(`harness/translators/cqm_fix_copy.py`), so a bookkeeping call on the receiver added to that branch (e.g. clearing the discrete markers
+as `fix_variable` does) breaks this file, and the harness then looks for the failing input (every observable of the receiver — `discrete`,
+`lhs.is_discrete()`, weights, penalties, bounds, vartypes, label orders, counts — before and after the call). -/
+section fix_copy_source
+example : Generated.CqmFixCopy.callsOnSelf = ["variables.index", "cppcqm.fix_variables"] := by decide +kernel
+example : Generated.CqmFixCopy.storesOnSelf = [] ∧ Generated.CqmFixCopy.cppFixVariablesIsConst = true := by decide +kernel
+end fix_copy_source
 
 end C19
